@@ -83,7 +83,7 @@ def jsonMarshalProbes : List String := ["encoding/json.Marshaler => .MarshalJSON
 
 def jsonUnmarshalProbes : List String := ["encoding/json.Unmarshaler => .UnmarshalJSON", "google.golang.org/protobuf/reflect/protoreflect.ProtoMessage => .Unmarshal", "google.golang.org/protobuf/runtime/protoiface.MessageV1 => .Unmarshal", "github.com/gogo/protobuf/proto.Message => .Unmarshal"]
 
-def resetProbes : List String := ["google.golang.org/protobuf/reflect/protoreflect.ProtoMessage => ", "interface{Reset()} => .Reset"]
+def resetProbes : List String := ["interface{Reset()} => .Reset"]
 
 def marshalTextProbes : List String := ["encoding.TextMarshaler => .MarshalText"]
 
